@@ -16,6 +16,35 @@ warnings.filterwarnings("ignore")
 PROP = "C06"
 LEAN_MODULE = "SkVerif.Props.C06"
 OBLIGATIONS = [
+    "SkVerif.C06.loss_nonneg",
+    "SkVerif.C06.loss_zero_of_perfect",
+    "SkVerif.C06.gm_floor_of_perfect_partial",
+    "SkVerif.C06.spe_symm",
+    "SkVerif.C06.spe_mem_Icc_0_2",
+    "SkVerif.C06.pct_eq_textbook",
+    "SkVerif.C06.rel_eq_textbook",
+    "SkVerif.C06.asym_eq_textbook",
+    "SkVerif.C06.class_call_eq_function_partial",
+    "SkVerif.C06.class_call_raises",
+    "SkVerif.C06.class_call_differs_witness",
+    "SkVerif.C06.mae_mse_eq_spec",
+    "SkVerif.C06.mape_mspe_eq_spec",
+    "SkVerif.C06.masym_eq_spec",
+    "SkVerif.C06.ef_app_eq",
+    "SkVerif.C06.mrae_univariate_eq_spec",
+    "SkVerif.C06.scaled_univariate_eq_spec",
+    "SkVerif.C06.median_reducer_is_median",
+    "SkVerif.C06.mdae_univariate_is_median",
+    "SkVerif.C06.weighted_median_laws",
+    "SkVerif.C06.horizon_weight_is_weighted_mean",
+    "SkVerif.C06.direct_metrics",
+    "SkVerif.C06.multioutput_is_per_column",
+    "SkVerif.C06.scaled_scale_invariant",
+    "SkVerif.C06.scaled_not_scale_invariant_when_clamped",
+    "SkVerif.C06.mdape_weighted_partial",
+    "SkVerif.C06.mdape_weighted_swapped_witness",
+    "SkVerif.C06.gm_eq_spec_partial",
+    "SkVerif.C06.gm_weighted_violated",
 ]
 TRUSTED = ["hand-written model SkVerif/Model/Metrics.lean of _functions.py / _classes.py over exact rationals",
            "numpy (np.average, np.median, np.where, broadcasting), scipy gmean, sklearn _weighted_percentile / mean_absolute_error / "
